@@ -4,6 +4,7 @@ package main
 
 import (
 	"fmt"
+	"go/ast"
 	"go/types"
 	"math/big"
 	"strings"
@@ -36,15 +37,16 @@ type CNum struct{ N *big.Int }
 type CState struct{}
 
 type EvalCtx struct {
-	ex     *Exec
-	pre    *State
-	post   *State
-	old    bool
-	vars   map[string]Value
-	bound  map[string]Value
-	evBase int
-	clBase int
-	fn     *ssa.Function
+	ex         *Exec
+	pre        *State
+	post       *State
+	old        bool
+	vars       map[string]Value
+	bound      map[string]Value
+	evBase     int
+	clBase     int
+	fn         *ssa.Function
+	loopHeader *ssa.BasicBlock
 	// side conditions produced while evaluating (e.g. skolem canonicity), conjoined to assumptions
 	side []*Term
 }
@@ -340,6 +342,16 @@ func (c *EvalCtx) local(name string) (Value, bool) {
 	if fr == nil {
 		return nil, false
 	}
+	// phis of the loop header whose invariant is being evaluated come first (several loops may reuse a name)
+	if c.loopHeader != nil {
+		for _, in := range c.loopHeader.Instrs {
+			if x, ok := in.(*ssa.Phi); ok && x.Comment == name {
+				if v, ok := fr.Regs[x]; ok {
+					return v, true
+				}
+			}
+		}
+	}
 	for _, b := range c.fn.Blocks {
 		for _, in := range b.Instrs {
 			switch x := in.(type) {
@@ -357,6 +369,22 @@ func (c *EvalCtx) local(name string) (Value, bool) {
 				}
 			}
 		}
+	}
+	// a source variable bound to an SSA value (debug references)
+	var found Value
+	for _, b := range c.fn.Blocks {
+		for _, in := range b.Instrs {
+			if d, ok := in.(*ssa.DebugRef); ok && !d.IsAddr {
+				if id, ok := d.Expr.(*ast.Ident); ok && id.Name == name {
+					if v, ok := fr.Regs[d.X]; ok {
+						found = v
+					}
+				}
+			}
+		}
+	}
+	if found != nil {
+		return found, true
 	}
 	return nil, false
 }
@@ -881,6 +909,48 @@ func (c *EvalCtx) call(e *Expr) Value {
 		ts, _ := c.specArgs(sf, e.Args)
 		return c.specApp(sf, ts)
 	}
+	if e.Name == "revealAll" {
+		// revealAll(f): the defining equation of the one-parameter opaque function f for every argument
+		if len(e.Args) != 1 || e.Args[0].Op != "ident" || specFuns[e.Args[0].Name] == nil || len(specFuns[e.Args[0].Name].Params) != 1 {
+			fail("revealAll needs the name of a one-parameter specfun")
+		}
+		sf := specFuns[e.Args[0].Name]
+		sort, mk := c.boundSort(sf.Params[0][1])
+		bv := Var("q$ra_"+sf.Name, sort)
+		app := c.specApp(sf, []*Term{bv})
+		saved, had := c.bound[sf.Params[0][0]]
+		c.bound[sf.Params[0][0]] = mk(bv)
+		body := c.norm(c.eval(sf.Body))
+		if had {
+			c.bound[sf.Params[0][0]] = saved
+		} else {
+			delete(c.bound, sf.Params[0][0])
+		}
+		eqn := c.eq(app, body)
+		pats := [][]*Term{{app.(VStr).T}}
+		// also trigger on the list element the body reads, so that uses of the unfolded form find the definition
+		var sels []*Term
+		seen := map[*Term]bool{}
+		var find func(t *Term)
+		find = func(t *Term) {
+			if seen[t] {
+				return
+			}
+			seen[t] = true
+			if t.Op == "select" && t.Args[1] == bv {
+				sels = append(sels, t)
+			}
+			for _, a := range t.Args {
+				find(a)
+			}
+		}
+		find(eqn)
+		if len(sels) > 0 {
+			pats = append(pats, []*Term{sels[0]})
+		}
+		c.side = append(c.side, Forall([]*Term{bv}, eqn, pats...))
+		return VBool{TTrue}
+	}
 	if e.Name == "reveal" {
 		// reveal(f(args)): the defining equation of the opaque spec function f for these arguments
 		if len(e.Args) != 1 || e.Args[0].Op != "call" || specFuns[e.Args[0].Name] == nil {
@@ -1157,6 +1227,20 @@ func (c *EvalCtx) call(e *Expr) Value {
 			conj = append(conj, Eq(Select(Barr(sT), BVU(64, i)), Select(Barr(p), BVU(64, i))))
 		}
 		return VBool{And(conj...)}
+	case "mapHas":
+		// mapHas(m, s): the string s is a key of the local map[string]struct{} m
+		argn(2)
+		mv := c.norm(c.eval(e.Args[0]))
+		m, ok := mv.(VMap)
+		if !ok || m.Cell <= 0 {
+			fail("mapHas: not a map")
+		}
+		st := c.state()
+		cell, ok := st.cells[m.Cell].(VMapVal)
+		if !ok {
+			cell = c.post.cells[m.Cell].(VMapVal)
+		}
+		return VBool{Select(cell.Set, c.bytesArg(e.Args[1]))}
 	case "paginatedPrefix":
 		// the raw key prefix of the store handed to query.Paginate by this call ("" when none was made)
 		argn(0)
